@@ -670,6 +670,10 @@ def mutants():
           '    def processCharacters(self, token):\n        self.parser.parseError("unexpected-char-after-frameset")', "C03.6"),
         T("deep-index", "html5parser.py", '        if (self.tree.openElements[-1].name == "option" and\n                self.tree.openElements[-2].name == "optgroup"):',
           '        if (self.tree.openElements[-2].name == "optgroup"):', "C03.5"),
+        T("tok-self-reconsume", "_tokenizer.py", "            self.stream.unget(data)\n            self.state = self.beforeAttributeNameState\n        return True\n\n    def selfClosingStartTagState",
+          "            self.stream.unget(data)\n            self.state = self.afterAttributeValueState\n        return True\n\n    def selfClosingStartTagState", "C03.3"),
+        T("tok-eof-loop", "_tokenizer.py", "        elif data is EOF:\n            self.tokenQueue.append({\"type\": tokenTypes[\"ParseError\"], \"data\":\n                                    \"eof-in-tag-name\"})\n            self.state = self.dataState",
+          "        elif data is EOF:\n            self.tokenQueue.append({\"type\": tokenTypes[\"ParseError\"], \"data\":\n                                    \"eof-in-tag-name\"})", "C03.3"),
         T("variant-typo", "html5parser.py", 'return not self.tree.elementInScope("tr", variant="table")', 'return not self.tree.elementInScope("tr", variant="tables")', "C03.1"),
     ]
 
